@@ -258,6 +258,7 @@ def execute(cfg, ctx, chk, lookups=True):
     exc = None
     boundaries = []
     snap_a = runner_a = None
+    mid_lookups = None
     # grid / limit used by the SECOND simulate() of the "twice_*" modes
     pd2, rep_max2 = second_run_setup(pd, unpacked, rep_max, mode)
     try:
@@ -282,6 +283,11 @@ def execute(cfg, ctx, chk, lookups=True):
                     else:
                         runner.simulate(single_arg)
                     boundaries.append(len(runner.call_log))
+                    if run_i == 0 and runs == 2 and single is None and unpacked and lookups:
+                        # query between the two runs (wave 9, C05-w9seed1: a look-up cache warmed by a
+                        # query and not dropped by the item assignment): every look-up is made on the
+                        # results of the FIRST run and judged below against the first run's reference
+                        mid_lookups = _observe_lookups(runner.results, RM._plain(pd), unpacked)
             except Exception as e:  # noqa
                 exc = e
             if snap_a is not None and exc is None and _snapshot(runner_a) != snap_a:
@@ -319,6 +325,17 @@ def execute(cfg, ctx, chk, lookups=True):
                 rvs.append(RM.ref_run_variation(RM.RefVariation(i, vals), rep_max if run_i == 0 else rep_max2,
                                                 keep, next_answer))
             ref_runs.append(rvs)
+        if mid_lookups is not None and exc is None:
+            sums0 = [sum(rv.succ) for rv in ref_runs[0]]
+            for fixed_q, got_idx, got_vals in mid_lookups:
+                want_idx = [i for i, v in enumerate(vars_) if all(v[n] == fv for n, fv in fixed_q.items())]
+                chk.count("eval_lookups")
+                if got_idx != want_idx:
+                    chk.fail(("get_pack_indexes", "between_two_runs"), dict(cfg=cfg, choices=list(ctx.choices),
+                             fixed=fixed_q), observed=got_idx, expected=want_idx)
+                elif got_vals != [sums0[i] for i in want_idx]:
+                    chk.fail(("get_result_values_list", "between_two_runs"), dict(cfg=cfg, choices=list(ctx.choices),
+                             fixed=fixed_q), observed=got_vals, expected=[sums0[i] for i in want_idx])
         if runs == 2:
             vars_, pd = vars_2, pd2      # look-ups are judged on the final state
         rvs = ref_runs[-1]
@@ -412,6 +429,19 @@ def change_between_runs(runner, mode, pd2, unpacked):
         runner.params.add(n, pd2[n])
     elif mode == "twice_rep_max":
         runner.rep_max = runner.rep_max + 1
+
+
+def _observe_lookups(res, pd, unpacked):
+    """every look-up by fixed values on `res`, recorded (not judged) as (fixed, indexes, values)"""
+    names = sorted(unpacked)
+    out = []
+    for comb in itertools.product(*[[None] + list(pd[n]) for n in names]):
+        fixed = {n: v for n, v in zip(names, comb) if v is not None}
+        if not fixed:
+            continue
+        idx = [int(i) for i in res.params.get_pack_indexes(fixed)]
+        out.append((fixed, idx, list(res.get_result_values_list("v", fixed))))
+    return out
 
 
 def check_lookups(chk, case, res, pd, unpacked, vars_, sums):
